@@ -20,7 +20,7 @@
 //!   `Xls::new` / `sheet_names` / `worksheet_range` and compared with the stored text.
 #[cfg(feature = "hooks")]
 use calamine::verif_hooks::xls as hooks;
-use calamine::{Data, Reader, Xls};
+use calamine::{Data, Reader, Xls, XlsOptions};
 use std::sync::mpsc;
 use verif_harness::xlsw::{rgce_int, Cached, CellV, XlsBook, XlsCell, XlsSheet};
 use verif_harness::{driver::Driver, guarded, report::Report, rng::Rng, Args};
@@ -1028,14 +1028,25 @@ fn run_file(seed: u64, case_line: &str, stream: &[u8]) -> Outcome {
                 // FORMULA with a string result: the STRING record follows directly, or after the definition of a
                 // shared formula (SHRFMLA), an array formula (ARRAY) or a data table (TABLE)
                 let between = rng.below(5);
+                // one time in three the token stream is one the reader cannot render (PtgTbl / PtgMemFunc / PtgRefN): the
+                // formula text becomes "Unrecognised formula …", the string result must still land in this cell
+                let rg_first: Vec<u8> = match rng.below(6) {
+                    0 => vec![0x02, 0, 0, 0, 0],
+                    1 => vec![0x29, 3, 0, 0x1E, 1, 0],
+                    2 => vec![0x2C, 0, 0, 0, 0],
+                    _ => rgce_int(1),
+                };
+                if rg_first != rgce_int(1) {
+                    o.count("file.formula_string_with_unrenderable_rgce");
+                }
                 if between < 2 {
                     use verif_harness::xlsw as x;
-                    sh.cells.push(XlsCell::raw(x::FORMULA, x::formula_payload(i as u16, 2, 0, x::formula_value(&Cached::Str(String::new())), &rgce_int(1))));
+                    sh.cells.push(XlsCell::raw(x::FORMULA, x::formula_payload(i as u16, 2, 0, x::formula_value(&Cached::Str(String::new())), &rg_first)));
                     sh.cells.push(XlsCell::raw(x::STRING, x::xl_unicode_string(txt, pack, &mut rng)));
                 } else {
                     use verif_harness::xlsw as x;
                     let row = i as u16;
-                    sh.cells.push(XlsCell::raw(x::FORMULA, x::formula_payload(row, 2, 0, x::formula_value(&Cached::Str(String::new())), &rgce_int(1))));
+                    sh.cells.push(XlsCell::raw(x::FORMULA, x::formula_payload(row, 2, 0, x::formula_value(&Cached::Str(String::new())), &rg_first)));
                     let mut d = row.to_le_bytes().to_vec(); // Ref: rwFirst rwLast colFirst colLast
                     d.extend_from_slice(&row.to_le_bytes());
                     d.extend_from_slice(&[2, 2]);
@@ -1322,6 +1333,121 @@ fn run_big(k: usize, seed: u64) -> Outcome {
         Err(m) => o.fail("impl_vs_spec", "big_sst_workbook_panics", &m, "(no file-level model)", "no panic"),
     }
     o
+}
+
+// ---------------------------------------------------------------- stage I: BIFF5 byte strings under a code page
+
+/// `b5 <codepage> <forced 0|1> <bytes hex>,<expected utf8 hex>`: a BIFF5 workbook whose sheet name, a LABEL value and a
+/// defined name are the given bytes (no flag byte: plain code-page text). The code page comes from the CODEPAGE record,
+/// or (`forced`) the record says 1252 and the reader is opened with `XlsOptions::force_codepage`.
+fn run_b5(line: &str) -> Outcome {
+    use verif_harness::xlsw as x;
+    let mut o = Outcome { input: line.to_string(), ..Default::default() };
+    let w: Vec<&str> = line.split_whitespace().collect();
+    let parsed = (|| {
+        if w.len() != 4 {
+            return None;
+        }
+        let (b, e) = w[3].split_once(',')?;
+        Some((w[1].parse::<u16>().ok()?, w[2] == "1", unhex(b), String::from_utf8(unhex(e)).ok()?))
+    })();
+    let (cp, forced, bytes, want) = match parsed {
+        Some(p) => p,
+        None => {
+            o.fail("model_vs_spec", "bad-replay-line", "", "", "");
+            return o;
+        }
+    };
+    let bof = |dt: u16| -> Vec<u8> {
+        let mut b = 0x0500u16.to_le_bytes().to_vec();
+        b.extend_from_slice(&dt.to_le_bytes());
+        b.extend_from_slice(&[0xBB, 0x0D, 0xCC, 0x07]);
+        b
+    };
+    let mut g: Vec<(u16, Vec<u8>)> = vec![(x::BOF, bof(0x0005))];
+    g.push((x::CODEPAGE, (if forced { 1252u16 } else { cp }).to_le_bytes().to_vec()));
+    let mut bs = 0u32.to_le_bytes().to_vec();
+    bs.extend_from_slice(&[0, 0, bytes.len() as u8]);
+    bs.extend_from_slice(&bytes);
+    let bs_at = g.len();
+    g.push((x::BOUNDSHEET, bs));
+    let mut l = vec![0u8, 0, 0, bytes.len() as u8, 3, 0];
+    l.extend_from_slice(&[0u8; 8]);
+    l.extend_from_slice(&bytes);
+    l.extend_from_slice(&[0x1E, 1, 0]);
+    g.push((x::LBL, l));
+    g.push((x::EOF, vec![]));
+    let glen: usize = g.iter().map(|r| 4 + r.1.len()).sum();
+    g[bs_at].1[..4].copy_from_slice(&(glen as u32).to_le_bytes());
+    let mut lab = x::cell_hdr(0, 0, 0);
+    lab.extend_from_slice(&(bytes.len() as u16).to_le_bytes());
+    lab.extend_from_slice(&bytes);
+    let mut stream = x::frame(&g);
+    stream.extend(x::frame(&[(x::BOF, bof(0x0010)), (x::LABEL, lab), (x::EOF, vec![])]));
+    let mut rng = Rng::new(verif_harness::fnv64(line.as_bytes()));
+    let file = verif_harness::cfbw::write_cfb(&[("Book".to_string(), stream)], &verif_harness::cfbw::CfbOpts::default(), &mut rng);
+    o.count(&format!("b5.cp{cp}{}", if forced { ".forced" } else { "" }));
+    o.nontrivial = true;
+    let res = guarded(|| -> Result<(String, String, String), String> {
+        let mut opts = XlsOptions::default();
+        if forced {
+            opts.force_codepage = Some(cp);
+        }
+        let mut wb = Xls::new_with_options(std::io::Cursor::new(file), opts).map_err(|e| format!("{e:?}"))?;
+        let name = wb.sheet_names().first().cloned().unwrap_or_default();
+        let range = wb.worksheet_range(&name).map_err(|e| format!("{e:?}"))?;
+        let label = match range.get_value((0, 0)) {
+            Some(Data::String(s)) => s.clone(),
+            other => format!("{other:?}"),
+        };
+        let dn = wb.defined_names().first().map(|d| d.0.clone()).unwrap_or_default();
+        Ok((name, label, dn))
+    });
+    let wants = format!("{:?}", (want.clone(), want.clone(), want.clone()));
+    match res {
+        Ok(Ok(got)) => {
+            if got != (want.clone(), want.clone(), want) {
+                let what = if got.0 != got.1 || got.1 != got.2 { "carriers_disagree" } else { "text_differs" };
+                o.fail("impl_vs_spec", &format!("biff5_byte_string_cp{cp}_{what}"), &format!("{got:?}"), "(no file-level model)", &wants);
+            }
+        }
+        Ok(Err(e)) => o.fail("impl_vs_spec", &format!("biff5_workbook_cp{cp}_rejected"), &canon_err(&e), "(no file-level model)", &wants),
+        Err(m) => o.fail("impl_vs_spec", &format!("biff5_workbook_cp{cp}_panics"), &m, "(no file-level model)", &wants),
+    }
+    o
+}
+
+fn gen_b5(rng: &mut Rng) -> String {
+    let forced = rng.chance(1, 3);
+    let (cp, bytes, want): (u16, Vec<u8>, String) = match rng.below(3) {
+        0 => {
+            // code page 1252: ASCII and the letters 0xC0..0xFF (same code points as Latin-1)
+            let n = rng.range(1, 20) as usize;
+            let mut b: Vec<u8> = vec![];
+            for _ in 0..n {
+                let opts = [rng.range(0x41, 0x5A) as u8, rng.range(0x61, 0x7A) as u8, rng.range(0xC0, 0xFF) as u8, b'_', b'7'];
+                b.push(*rng.pick(&opts));
+            }
+            let w: String = b.iter().map(|c| *c as char).collect();
+            (1252, b, w)
+        }
+        _ => {
+            // code page 65001: the bytes are UTF-8
+            let mut w = String::new();
+            let target = rng.range(1, 24) as usize;
+            while w.len() < target {
+                let k = rng.below(4);
+                let c = gen_char(rng, k);
+                if c != '\0' && w.len() + c.len_utf8() <= 31 {
+                    w.push(c);
+                } else {
+                    w.push('x');
+                }
+            }
+            (65001, w.as_bytes().to_vec(), w)
+        }
+    };
+    format!("b5 {cp} {} {},{}", forced as u8, hexs(&bytes), hexs(want.as_bytes()))
 }
 
 // ---------------------------------------------------------------- stage G: defined names, BIFF8 and BIFF5
@@ -1713,6 +1839,17 @@ fn corpus() -> Vec<(String, Option<String>)> {
         let ls = make_layout(&t, &mut rng, &style(&mut Rng::new(1), 0));
         v.push((wire_table(2, &t, &ls), None));
     }
+    // BIFF5 byte strings decoded as UTF-8 (seeded change C12-m19: NUL-interleaved), by record and forced
+    v.push((format!("b5 65001 0 {0},{0}", hexs("Caf\u{e9} \u{65e5}\u{672c}".as_bytes())), None));
+    v.push((format!("b5 65001 1 {0},{0}", hexs("na\u{ef}ve".as_bytes())), None));
+    v.push(("b5 1252 0 436166e9,436166c3a9".into(), None));
+    // KNOWN finding D44 (unchanged reader): BIFF5 byte strings under the double-byte code pages 932 / 936 / 949 / 950 are
+    // zero-extended before decoding (XlsEncoding::high_byte answers Some(false) for every multi-byte encoding): NUL-interleaved garbage
+    v.push(("b5 932 0 93fa967b,e697a5e69cac".into(), None));
+    v.push(("b5 936 0 d6d0cec4,e4b8ade69687".into(), None));
+    v.push(("b5 949 0 c7d1b1db,ed959ceab880".into(), None));
+    v.push(("b5 950 1 a4a4a4e5,e4b8ade69687".into(), None));
+    v.push(("b5 932 1 4142,4142".into(), None));
     // whole file: BOM-like units at segment starts in SST, LABEL and a sheet name
     v.push(("file 1 case 1 6100fffe6200,~,~,0,1,1:1,-,-;fffe6100,~,~,0,1,-,-,-;-,~,~,0,1,-,-,-".into(), None));
     // fixed 9c57a3b (C06 overlap): header fields cut by a record end, negative cstUnique, cstUnique = 2^31-1 (reservation)
@@ -1795,6 +1932,7 @@ enum Job {
     Wb(u64),
     Names(u64),
     Counts(u64),
+    B5(u64),
     Big(usize, u64),
     Line(String, Option<String>),
 }
@@ -1830,6 +1968,8 @@ fn run_job_inner(job: &Job, drv: &mut Driver) -> Vec<Outcome> {
             } else if l.starts_with("big ") {
                 let w: Vec<&str> = l.split_whitespace().collect();
                 vec![run_big(w.get(1).and_then(|x| x.parse().ok()).unwrap_or(1), w.get(2).and_then(|x| x.parse().ok()).unwrap_or(1))]
+            } else if l.starts_with("b5 ") {
+                vec![run_b5(l)]
             } else if l.starts_with("names ") {
                 vec![run_names(l)]
             } else if l.starts_with("wb ") {
@@ -1972,6 +2112,10 @@ fn run_job_inner(job: &Job, drv: &mut Driver) -> Vec<Outcome> {
             vec![o]
         }
         Job::Big(k, seed) => vec![run_big(*k, *seed)],
+        Job::B5(seed) => {
+            let mut rng = Rng::new(*seed);
+            vec![run_b5(&gen_b5(&mut rng))]
+        }
         Job::Wb(seed) => {
             let mut rng = Rng::new(*seed);
             let s = gen_wb(&mut rng);
@@ -2003,13 +2147,16 @@ fn main() {
          the SST header's cstTotal is equal to / smaller than / larger than cstUnique (a third each). \
          stage D: one layout of each table inside a complete .xls (xlsw writer, random compound-file layout): LABELSST cell per \
          string (one time in three a second cell of the sheet names the same string; the other sheets name it again), FORMULA+STRING \
-         also with a SHRFMLA / ARRAY / TABLE record between the two, inline LABEL cells and FORMULA+STRING results for strings <= 2000 units, sheet names = first <= 30 units of a \
+         also with a SHRFMLA / ARRAY / TABLE record between the two and, one time in three, with a token stream the reader cannot render \
+         (PtgTbl, PtgMemFunc, PtgRefN), inline LABEL cells and FORMULA+STRING results for strings <= 2000 units, sheet names = first <= 30 units of a \
          table string (NUL excluded), read through Xls::new / sheet_names / worksheet_range against the stored text. \
          one table in 12 is made of 13..80 strings nearly all empty (cch = 0, 8- or 16-bit flag, with or without the rich / ext \
          flags carrying zero counts) with a few short ones at the end; `counts`: such tables (and small ones) with cstUnique set \
          below / at / above the number of strings present (the first cstUnique strings are expected, the rest of the record is ignored). \
          stage H: workbooks whose SST holds 65536+k distinct short strings (k = 1, 100, random; xlsw writer, ~60 CONTINUE records) \
          with LABELSST cells naming entries 0, 1, 255, 256, 65535, 65536, 65537, the last and random ones >= 65536. \
+         stage I: BIFF5 workbooks whose sheet name, LABEL value and defined name are byte strings (no flag byte) in code page 1252 or \
+         65001 (UTF-8), the code page given by the CODEPAGE record or forced through XlsOptions::force_codepage. \
          stage G: 1-3 defined names (1..255 units; BIFF8: any characters, random 8/16-bit packing; BIFF5: Latin-1 letters as plain \
          code-page-1252 bytes, no flag byte) in a BIFF8 / BIFF5 workbook, read through Xls::new / defined_names against the stored names. \
          stage F: a small workbook stream (BOF, CODEPAGE, DATEMODE, FORMAT, XF, BOUNDSHEET, SUPBOOK, EXTERNSHEET, LBL, SST, EOF + a \
@@ -2056,6 +2203,9 @@ fn main() {
                 jobs.push(Job::Names(rng.next()));
             }
             jobs.push(Job::Counts(rng.next()));
+            if i % 4 == 0 {
+                jobs.push(Job::B5(rng.next()));
+            }
         }
         // shared-string tables of more than 65 536 entries (about 0.6 MB each)
         let bigs = if args.thorough() { 40 } else { 3 };
